@@ -46,7 +46,7 @@ static double now_s()
   return duration<double>(steady_clock::now().time_since_epoch()).count();
 }
 
-static std::string g_san_dir = "/verif/build/san";
+static std::string g_san_dir = build_dir() + "/san";
 static std::string g_self;
 std::string self_exe() { return g_self; }
 std::string san_dir() { return g_san_dir; }
@@ -118,7 +118,7 @@ static void classify_san_text(const std::string & path, const std::string & txt,
         for (char c : rest) { if (isdigit((unsigned char)c)) { if (k.empty() || k.back() != '#') k += '#'; } else k += c; }
         kind = "ubsan:" + k.substr(0, 60);
         // ubsan prefix carries file:line
-        size_t r = line.find("/repo/");
+        size_t r = line.find(repo_dir() + "/");
         if (r != std::string::npos && r < p) {
           std::string loc = line.substr(r, p - r);
           size_t c2 = loc.find(':');
@@ -132,9 +132,9 @@ static void classify_san_text(const std::string & path, const std::string & txt,
     }
     if (!kind.empty() && line.empty()) first_stack_done = true;
     if (!kind.empty() && frame.empty() && !first_stack_done) {
-      size_t r = line.find("/repo/");
+      size_t r = line.find(repo_dir() + "/");
       if (r == std::string::npos && harness_frame.empty() && line.find("#") != std::string::npos) {
-        size_t h = line.find("/verif/sim/");
+        size_t h = line.find("/sim/");
         if (h != std::string::npos) { harness_frame = line.substr(h); size_t sp = harness_frame.find_first_of(" \t)"); if (sp != std::string::npos) harness_frame = harness_frame.substr(0, sp); }
       }
       if (r != std::string::npos && line.find("#") != std::string::npos) {
@@ -432,7 +432,7 @@ static int cmd_check(std::map<std::string, std::string> & args)
   int W = std::stoi(arg_of(args, "workers", "8"));
   double run_timeout = std::stod(arg_of(args, "run-timeout-s", "20"));
   std::string out_path = arg_of(args, "out", "");
-  std::string replay_dir = arg_of(args, "replay-dir", "/verif/replays/" + ctx.prop);
+  std::string replay_dir = arg_of(args, "replay-dir", verif_dir() + "/replays/" + ctx.prop);
   int det_samples = std::stoi(arg_of(args, "det-samples", "24"));
   int max_gate = std::stoi(arg_of(args, "max-gate", "6"));
 
@@ -760,7 +760,7 @@ int main(int argc, char ** argv)
     char buf[4096]; ssize_t n = readlink("/proc/self/exe", buf, sizeof buf - 1);
     if (n > 0) { buf[n] = 0; g_self = buf; } else g_self = argv[0];
   }
-  setenv("BXDECAY0_RESOURCE_DIR", getenv("BXSIM_RESOURCE_DIR") ? getenv("BXSIM_RESOURCE_DIR") : "/repo/resources", 1);
+  setenv("BXDECAY0_RESOURCE_DIR", getenv("BXSIM_RESOURCE_DIR") ? getenv("BXSIM_RESOURCE_DIR") : (repo_dir() + "/resources").c_str(), 1);
   unsetenv("BXDECAY0_DBD_GA_DATA_DIR");
   for (const char * k : {"BXDECAY0_TRACE", "BXDECAY0_TRACE_GENBBSUB", "BXDECAY0_TRACE_BB", "BXDECAY0_TRACE_GAUSS", "BXDECAY0_TRACE_FE12", "BXDECAY0_TRACE_FERMI"}) unsetenv(k);
   signal(SIGPIPE, SIG_IGN);
